@@ -213,7 +213,17 @@ def main():
             r = Rng(seed * 1000003 + int(pid[1:]))
             if a.replay:
                 rp = json.load(open(a.replay))
-                cases = [props.Case(rp["line"], rp.get("meta", {}), "replay")] if "line" in rp else []
+                cases = []
+                if "line" in rp and rp.get("group_lines"):
+                    # a group finding: the whole group is replayed and judged by its group oracle again
+                    gfun = props.resolve_oracle(rp.get("group_oracle"))
+                    for gl in rp["group_lines"]:
+                        cases.append(props.Case(gl["line"], props.meta_from_json(gl.get("meta", {})), gl.get("kind", "replay"), oracle=props.resolve_oracle(gl.get("oracle")),
+                                                compare=gl.get("compare", True), model_line=gl.get("model_line"),
+                                                group=(("replay", 0), gfun) if gfun else None))
+                elif "line" in rp:
+                    cases = [props.Case(rp["line"], props.meta_from_json(rp.get("meta", {})), rp.get("meta_kind", "replay"), oracle=props.resolve_oracle(rp.get("oracle")),
+                                        compare=rp.get("compare", True), model_line=rp.get("model_line"))]
             else:
                 cases = props.corpus_cases(pid) + P["gen"](r, tier, env, Ls)
             lines = [c.line for c in cases]
@@ -292,7 +302,14 @@ def main():
         if sig in seen_sigs and reported >= 3:
             continue
         seen_sigs.add(sig)
+        extra = {}
+        if c.group is not None:
+            members = [g for g in cases if g.group is not None and g.group[0] == c.group[0]]
+            extra = {"group_oracle": props.oracle_name(c.group[1]),
+                     "group_lines": [{"line": g.line, "meta": props.meta_to_json(g.meta), "kind": g.kind, "oracle": props.oracle_name(g.oracle), "compare": g.compare,
+                                      "model_line": g.model_line} for g in members]}
         path = write_replay(f"violation_{reported}.json", {"property": pid, "what": fail, "line": c.line, "meta_kind": c.kind,
+                            "meta": props.meta_to_json(c.meta), "oracle": props.oracle_name(c.oracle), "compare": c.compare, "model_line": c.model_line, **extra,
                             "impl": c.impl_out, "model": c.model_out, "signature": sig,
                             "replay_cmd": f"python3 tools/check.py {pid} --replay <this file>"})
         out_lines.append(f"VIOLATION property={pid} replay={path}")
